@@ -69,7 +69,7 @@ def applyFn (fn : Fn) (vals : List Val) : List Val :=
   | .sum, v :: _ => [.int v.sum]
   | .range k, v :: _ =>
       let s := v.sum
-      [.list ((List.range (s % (k : Int)).toNat).map (fun i => Val.int (s + i)))]
+      [.list ((List.range (s % (k : Int)).toNat).map (fun (i : Nat) => Val.int (s + (i : Int))))]
   | .lin k, vs => [.int (linFold vs + k)]
   | .pair, a :: b :: _ => [.list [a, b]]
   | .split, v :: _ => [v.map (· + 1), .int v.sum]
@@ -107,9 +107,12 @@ structure Spec where
   nodes   : List Node
 deriving Repr
 
-abbrev Env := Nat → List Tok
+/-- contents of every port. A structure (not a bare function) so that a node's outputs are computed once,
+    when the node is evaluated, and not again at every look-up. -/
+structure Env where
+  get : Nat → List Tok
 
-def Env.set (e : Env) (p : Nat) (l : List Tok) : Env := fun q => if q = p then l else e q
+def Env.set (e : Env) (p : Nat) (l : List Tok) : Env := ⟨fun q => if q = p then l else e.get q⟩
 
 /-- write `ls[i]` to port `ps[i]` -/
 def Env.setMany (e : Env) : List Nat → List (List Tok) → Env
@@ -119,13 +122,13 @@ def Env.setMany (e : Env) : List Nat → List (List Tok) → Env
 def lookupTag (l : List Tok) (t : Tag) : Option Val := (l.find? (fun x => x.tag == t)).map (·.val)
 
 /-- values at tag `t` on every port of `ins` (none if some port lacks the tag) -/
-def groupAt (e : Env) (ins : List Nat) (t : Tag) : Option (List Val) := ins.mapM (fun q => lookupTag (e q) t)
+def groupAt (e : Env) (ins : List Nat) (t : Tag) : Option (List Val) := ins.mapM (fun q => lookupTag (e.get q) t)
 
 /-- the tags that fire: tags of the first input port present on all input ports -/
 def commonTags (e : Env) (ins : List Nat) : List Tag :=
   match ins with
   | [] => []
-  | q :: _ => ((e q).map (·.tag)).filter (fun t => (groupAt e ins t).isSome)
+  | q :: _ => ((e.get q).map (·.tag)).filter (fun t => (groupAt e ins t).isSome)
 
 /-- generic tag-grouping step: `f vals` gives, per output port, the value emitted (or none) -/
 def groupStep (e : Env) (ins : List Nat) (nouts : Nat) (f : List Val → List (Option Val)) : List (List Tok) :=
@@ -177,8 +180,8 @@ def isPre (a b : Tag) : Bool := a.isPrefixOf b
 def pickPre (l : List Tok) (k : Tag) : Option Val := (l.find? (fun t => isPre t.tag k)).map (·.val)
 
 def dotOut (e : Env) (ins : List Nat) : List (List Tok) :=
-  let tags := dedup (ins.flatMap (fun q => (e q).map (·.tag)))
-  let fired := tags.filterMap (fun k => (ins.mapM (fun q => pickPre (e q) k)).map (fun vals => (k, vals)))
+  let tags := dedup (ins.flatMap (fun q => (e.get q).map (·.tag)))
+  let fired := tags.filterMap (fun k => (ins.mapM (fun q => pickPre (e.get q) k)).map (fun vals => (k, vals)))
   (List.range ins.length).map (fun j => fired.filterMap (fun (k, vals) => vals[j]?.map (fun v => { tag := k, val := v })))
 
 def cartOut (a b : List Tok) : List Tok × List Tok :=
@@ -192,17 +195,17 @@ def nodeOut (e : Env) : Node → List (List Tok)
   | .tf fn ins outs => groupStep e ins outs.length (fun vals => (applyFn fn vals).map some)
   | .cond m r zero ins outs => groupStep e ins outs.length (condOut m r zero)
   | .exec k ins _ => groupStep e ins 1 (fun vals => [some (.int (linFold vals + k))])
-  | .scatter inp _ _ => [scatterOut (e inp), scatterSize (e inp)]
-  | .gather inp size _ d => [gatherOut (e inp) (e size) d]
+  | .scatter inp _ _ => [scatterOut (e.get inp), scatterSize (e.get inp)]
+  | .gather inp size _ d => [gatherOut (e.get inp) (e.get size) d]
   | .dot ins _ => dotOut e ins
-  | .cart a b _ _ => [(cartOut (e a) (e b)).1, (cartOut (e a) (e b)).2]
+  | .cart a b _ _ => [(cartOut (e.get a) (e.get b)).1, (cartOut (e.get a) (e.get b)).2]
 
 def nodeDen (e : Env) (n : Node) : Env := e.setMany n.outs (nodeOut e n)
 
-def srcEnv (s : Spec) : Env := fun p =>
+def srcEnv (s : Spec) : Env := ⟨fun p =>
   match s.sources.find? (fun x => x.1 == p) with
   | some (_, v) => [{ tag := [0], val := v }]
-  | none => []
+  | none => []⟩
 
 /-- the denotation: contents of every port after a complete run -/
 def den (s : Spec) : Env := s.nodes.foldl nodeDen (srcEnv s)
@@ -241,26 +244,26 @@ def wfNode (e : Env) : Node → Bool
   | .tf _ ins _ | .cond _ _ _ ins _ =>
       match ins with
       | [] => false
-      | q :: r => r.all (fun q' => sameTags (e q) (e q'))
+      | q :: r => r.all (fun q' => sameTags (e.get q) (e.get q'))
   | .exec _ ins _ =>
       match ins with
       | [] => false
-      | q :: r => r.all (fun q' => sameTags (e q) (e q')) &&
-          ins.all (fun q' => (e q').all (fun t => match t.val with | .int _ => true | .list _ => false))
-  | .scatter inp _ _ => (e inp).all (fun t => match t.val with | .list _ => true | .int _ => false)
+      | q :: r => r.all (fun q' => sameTags (e.get q) (e.get q')) &&
+          ins.all (fun q' => (e.get q').all (fun t => match t.val with | .int _ => true | .list _ => false))
+  | .scatter inp _ _ => (e.get inp).all (fun t => match t.val with | .list _ => true | .int _ => false)
   | .gather inp size _ d =>
-      (e inp).all (fun t => d < t.tag.length) &&
-      (e size).all (fun sz => match sz.val with
-        | .int n => decide (((e inp).filter (fun t => gatherKey d t.tag == sz.tag)).length ≤ n.toNat)
+      (e.get inp).all (fun t => d < t.tag.length) &&
+      (e.get size).all (fun sz => match sz.val with
+        | .int n => decide (((e.get inp).filter (fun t => gatherKey d t.tag == sz.tag)).length ≤ n.toNat)
         | .list _ => false)
-  | .dot ins _ => ins.all (fun q => antichain (e q))
-  | .cart a b _ _ => (e a).all (fun t => 2 ≤ t.tag.length) && (e b).all (fun t => 2 ≤ t.tag.length)
+  | .dot ins _ => ins.all (fun q => antichain (e.get q))
+  | .cart a b _ _ => (e.get a).all (fun t => 2 ≤ t.tag.length) && (e.get b).all (fun t => 2 ≤ t.tag.length)
 
 def wfDyn (s : Spec) : Bool :=
   let rec go (e : Env) : List Node → Bool
     | [] => true
     | n :: ns => wfNode e n && go (nodeDen e n) ns
-  go (srcEnv s) s.nodes && (List.range s.nports).all (fun p => distinctTags (den s p))
+  go (srcEnv s) s.nodes && (List.range s.nports).all (fun p => distinctTags ((den s).get p))
 
 /-! ## provenance (C07): edges between tokens identified by (port, tag) -/
 
@@ -276,20 +279,20 @@ def nodeProv (e : Env) (n : Node) : List (TokId × TokId) :=
       (zipPorts outs (nodeOut e n)).flatMap (fun (o, t) => ins.map (fun q => ((q, t.tag), (o, t.tag))))
   | .exec _ _ _ => []      -- the pipeline's internal ports are not part of the spec; checked generically
   | .scatter inp out size =>
-      ((scatterOut (e inp)).map (fun t => ((inp, t.tag.dropLast), (out, t.tag)))) ++
-      ((scatterSize (e inp)).map (fun t => ((inp, t.tag), (size, t.tag))))
+      ((scatterOut (e.get inp)).map (fun t => ((inp, t.tag.dropLast), (out, t.tag)))) ++
+      ((scatterSize (e.get inp)).map (fun t => ((inp, t.tag), (size, t.tag))))
   | .gather inp size out d =>
-      (gatherOut (e inp) (e size) d).flatMap (fun g =>
+      (gatherOut (e.get inp) (e.get size) d).flatMap (fun g =>
         ((size, g.tag), (out, g.tag)) ::
-        ((e inp).filter (fun t => d < t.tag.length && gatherKey d t.tag == g.tag)).map (fun t => ((inp, t.tag), (out, g.tag))))
+        ((e.get inp).filter (fun t => d < t.tag.length && gatherKey d t.tag == g.tag)).map (fun t => ((inp, t.tag), (out, g.tag))))
   | .dot ins outs =>
-      let tags := dedup (ins.flatMap (fun q => (e q).map (·.tag)))
+      let tags := dedup (ins.flatMap (fun q => (e.get q).map (·.tag)))
       tags.flatMap (fun k =>
-        match ins.mapM (fun q => ((e q).find? (fun t => isPre t.tag k)).map (fun t => (q, t.tag))) with
+        match ins.mapM (fun q => ((e.get q).find? (fun t => isPre t.tag k)).map (fun t => (q, t.tag))) with
         | some srcs => outs.flatMap (fun o => srcs.map (fun s => (s, (o, k))))
         | none => [])
   | .cart a b oa ob =>
-      (e a).flatMap (fun ta => ((e b).filter (fun tb =>
+      (e.get a).flatMap (fun ta => ((e.get b).filter (fun tb =>
           2 ≤ ta.tag.length && 2 ≤ tb.tag.length && ta.tag.dropLast == tb.tag.dropLast)).flatMap (fun tb =>
         let k := ta.tag ++ [tb.tag.getLast?.getD 0]
         [((a, ta.tag), (oa, k)), ((b, tb.tag), (oa, k)), ((a, ta.tag), (ob, k)), ((b, tb.tag), (ob, k))]))
